@@ -507,6 +507,26 @@ def run(ctx):
                    f'{owner_fn(prog, p_).split("::")[-1]}: `a - b` on Durations is preceded by a comparison of a and b (otherwise it panics as soon as b exceeds a, e.g. a worker that handles a message after its time limit has passed)', b_.loc(bi_))
     ctx.floor('R09.15', n15, 1, 'Duration subtractions in the tako runtime')
 
+    # ---- R09.16 no empty priority level is left in a ready queue
+    ctx.rule('R09.16', 'TaskQueue invariant "no empty level": every removal of an id from a More(set) level in TaskQueue::remove is followed by an is_empty test whose true edge removes the level from the queue; take_one (multi-node) does first_entry().pop_first().unwrap() and panics on an empty level')
+    TQ = T + 'scheduler::taskqueue::TaskQueue::'
+    tqr9 = prog.body(TQ + 'remove')
+    setrem = [bi for bi, t, c in tqr9.calls() if bi in tqr9.reachable() and (c or '').endswith(('Set::remove', 'HashSet::remove', 'BTreeSet::remove')) and 'prefill' not in local_field_sources(tqr9, op_local(t['args'][0]), through_mutation=False)]
+    ctx.floor('R09.16', len(setrem), 1, 'set removals in TaskQueue::remove (queue part)')
+    for sr_ in setrem:
+        ie9 = [x for x in tqr9.call_blocks(lambda c: c.endswith('::is_empty')) if x in tqr9.reach_after(sr_)]
+        er9 = [x for x in tqr9.call_blocks(lambda c: c.endswith(('OccupiedEntry::remove', 'OccupiedEntry::remove_entry', 'BTreeMap::remove'))) if x in tqr9.reach_after(sr_)]
+        okq = False
+        for x in ie9:
+            dl = tqr9.term[x]['d'][0]
+            for sb, ts, fs in bool_uses(tqr9, dl):
+                if any(y in tqr9.reach_from([ts]) and y not in tqr9.reach_from([fs], avoid=[sb]) for y in er9):
+                    okq = True
+        okm, _w = must_pass(tqr9, [sr_], ie9) if ie9 else (False, None)
+        ctx.ob('R09.16', 'TaskQueue::remove|emptied level removed', okq and okm, 'after an id was removed from a More(set) level the set is tested for emptiness on every path and an empty level is removed from the queue', tqr9.loc(sr_))
+    to9 = prog.body(TQ + 'take_one')
+    ctx.ob('R09.16', 'take_one|relies on non-empty levels', bool(to9.call_blocks(lambda c: c.endswith(('Option::unwrap', 'Option::expect')))), 'take_one unwraps the first element of the first level (which is why the invariant matters)', to9.loc())
+
     # ---- R09.6 / R09.7
     ctx.rule('R09.6', 'no panicking task lookup inside a loop whose body may remove tasks from the core (ids collected before the loop can be gone when their turn comes)')
     ctx.rule('R09.7', 'TaskQueue::remove asserts membership in one arm: every call site must be guarded by a test that implies the task is queue-resident (or no arm may diverge)')
